@@ -83,6 +83,46 @@ def const_str(repo, fi, node):
     return None
 
 
+def _fixed_public_names_on_library_value(repo, uni, fi, call):
+    """getattr(x, name) where `name` ranges over a module-level table of
+    public identifiers and x is a parameter declared with a python library
+    type (datetime.timedelta ...): the same as writing x.days, x.seconds."""
+    from sa import norm
+    nm = call.args[1]
+    if not (isinstance(nm, ast.Name) and isinstance(
+            call.args[0], ast.Name)):
+        return False
+    names = None
+    for x in ast.walk(fi.node):
+        if isinstance(x, (ast.comprehension, ast.For)):
+            tg = x.target
+            elts = tg.elts if isinstance(tg, (ast.Tuple, ast.List)) else [tg]
+            idx = [i for i, t in enumerate(elts)
+                   if isinstance(t, ast.Name) and t.id == nm.id]
+            if not idx:
+                continue
+            rows = norm.constant_table_values(repo, fi.module, x.iter)
+            if rows is None:
+                return False
+            names = []
+            for r in rows:
+                c = r.elts[idx[0]] if isinstance(
+                    r, (ast.Tuple, ast.List)) else r
+                names.append(c.value if isinstance(c, ast.Constant)
+                             else None)
+    if not names or not all(isinstance(s, str) and s.isidentifier() and
+                            not s.startswith('_') for s in names):
+        return False
+    for ov in uni.payload_ov.get(fi.key, ()):
+        for p in ov.params:
+            if p.name == call.args[0].id:
+                pts = p.type.python_types
+                return bool(pts) and all(
+                    t.split('.')[0] in ('datetime', 'decimal', 'fractions',
+                                        'uuid', 're') for t in pts)
+    return False
+
+
 def is_data(tags):
     return any(t[0] in ('param', 'derived', 'lazyres') for t in tags)
 
@@ -104,6 +144,9 @@ def find_sinks(repo, uni, fi):
                         d[9:], model.norm(n.args[0]))))
             elif d in DYN_ATTR and len(n.args) >= 2:
                 lit = const_str(repo, fi, n.args[1])
+                if lit is None and _fixed_public_names_on_library_value(
+                        repo, uni, fi, n):
+                    continue
                 if lit is None:
                     # a sink when the object or the name can come from
                     # expression data; a fixed module/constant object
